@@ -174,6 +174,16 @@ def dds_hash(x: Any) -> PyHash:
     return _dds_hash(x, None)
 
 
+def _hash_arg(x: Any) -> PyHash:
+    """
+    The hash of the value bound to an argument.
+
+    None is represented by a marker, so that a value is hashed in the same way when it is passed directly,
+    read from the source code or taken from the default value of the function.
+    """
+    return dds_hash(x if x is not None else "__none__")
+
+
 def get_arg_list(
     f: Callable,  # type: ignore
 ) -> List[str]:
@@ -206,12 +216,12 @@ def get_arg_ctx(
             # It is a list argument
             # TODO: should it discard arguments of not-whitelisted types?
             # TODO: raise a warning for non-whitelisted objects
-            h = dds_hash(args[idx])
+            h = _hash_arg(args[idx])
         else:
             # Either positional or default argument
             if n in kwargs:
                 # positional argument
-                h = dds_hash(kwargs[n])
+                h = _hash_arg(kwargs[n])
             elif p.default != Parameter.empty:
                 # Argument is not provided but it has a default value
                 # Use the default argument as an input
@@ -219,7 +229,7 @@ def get_arg_ctx(
                 # a warning/errors in most linters.
                 # TODO: should it discard arguments of not-whitelisted types?
                 # TODO: raise a warning for non-whitelisted objects
-                h = dds_hash(p.default or "__none__")
+                h = _hash_arg(p.default)
             elif p.kind == Parameter.VAR_KEYWORD:
                 # kwargs: for now, just ignored
                 h = None
@@ -262,8 +272,7 @@ def get_arg_ctx_ast(
         # NameConstant for python 3.5 - 3.7
         if isinstance(node, (ast.Constant, ast.NameConstant)):
             # We can deal with some constant nodes
-            default_ob = node.value if node.value is not None else "__none__"
-            return dds_hash(default_ob)
+            return _hash_arg(node.value)
         else:
             # Cannot deal with it for the time being
             return None
@@ -297,7 +306,7 @@ def get_arg_ctx_ast(
                 # a warning/errors in most linters.
                 # TODO: should it discard arguments of not-whitelisted types?
                 # TODO: raise a warning for non-whitelisted objects
-                h = dds_hash(p.default or "__none__")
+                h = _hash_arg(p.default)
             else:
                 # Do not consider this argument for the time being
                 h = None
